@@ -562,9 +562,6 @@ def unlocks(t, idx, spk, amount, flag=None):
             if len(wit) != 2:
                 why.append("p2wpkh: witness must be <sig> <pubkey>, has %d items" % len(wit))
                 return False
-            if len(wit[1]) != 33:
-                why.append("p2wpkh: public key must be compressed")
-                return False
             if h160(wit[1]) != d2:
                 why.append("p2wpkh: HASH160(pubkey) differs from the witness program")
                 return False
